@@ -150,11 +150,13 @@ func (k *K) Tick(d time.Duration) {
 }
 
 func (k *K) smallQuantum() time.Duration {
+	// irregular quanta (µs granularity) so unrelated timers do not share an instant; the
+	// recorded value 0 is the longest quantum, so that a run whose choices have run out (a
+	// truncated replay, a lazy-kernel tail) still lets every periodic timer fire
 	if softEvery > 0 {
-		return time.Duration(1000+k.C.Intn(100000)) * time.Microsecond
+		return time.Duration(101000-k.C.Intn(100000)) * time.Microsecond
 	}
-	// irregular quanta (µs granularity) so unrelated timers do not share an instant
-	return time.Duration(1000+k.C.Intn(1500000)) * time.Microsecond
+	return time.Duration(1501000-k.C.Intn(1500000)) * time.Microsecond
 }
 
 // Step performs exactly one kernel action chosen from the enabled set by the run's weights.
